@@ -19,7 +19,7 @@ PROP = "C13"
 LEVEL = "exploration"
 RULE = ("Three generated campaigns. (a) 'geometry': direct calls trsbox_geometry(xbase, c, g, lower, upper, Delta), n<=6, c in "
         "{0, 1, drawn}, g over 7 decades with zero and tiny (down to 1e-13) components, Delta over 5 decades, each box side drawn from {degenerate (on "
-        "xbase), 1e-3, 0.3, 1, 30 times Delta, absent}; global optimality against a clipped-ray bisection reference. "
+        "xbase), 1e-3, 0.3, 1, 30 times Delta, absent}, a sixth of the boxes centred on xbase up to a relative asymmetry of 1e-11..1e-6; global optimality against a clipped-ray bisection reference. "
         "(b) 'convex': ctrsbox_pgd / ctrsbox_geometry / ctrsbox_sfista with 1-3 balls/half-spaces/boxes containing the centre "
         "(centre in the interior, on the boundary, or with the boundaries of several sets passing through it), PSD/zero/low-rank H, L1/L2 regulariser for S-FISTA. (c) 'regstep': "
         "Controller.trust_region_step on real Controller+Model objects built on n+1 coordinate points with an L1/L2 regulariser, "
